@@ -252,7 +252,12 @@ where
     let workers = workers.max(1);
     std::thread::scope(|scope| {
         for _ in 0..workers {
-            scope.spawn(|| {
+            // Generous stacks: the default tail-call lexers recurse once per byte when the build does not turn the
+            // calls into jumps (dev profile), so a few KiB of input in one token or in consecutive skips needs
+            // megabytes of stack. That is logos' documented trade-off (C06, state_machine_codegen), not a verdict
+            // for the properties simulated here; the pages are only touched if used.
+            let builder = std::thread::Builder::new().stack_size(1 << 30);
+            let _ = builder.spawn_scoped(scope, || {
                 let mut local = Batch::default();
                 let mut hashes: BTreeSet<u64> = BTreeSet::new();
                 let mut samples: BTreeMap<u64, Value> = BTreeMap::new();
@@ -307,7 +312,7 @@ where
                 }
                 g.1.extend(hashes);
                 g.2.extend(samples);
-            });
+            }).expect("spawn worker");
         }
     });
     let (mut batch, hashes, samples) = merged.into_inner().unwrap();
